@@ -281,7 +281,9 @@ func (ef *Filter) Process(ctx context.Context, e *eventlogger.Event) (*eventlogg
 					// before ptrs are converted via f := f.Elem()
 					// this is required to match up with the fieldIsTaggable
 					// for tracking of maps
-					tm.trackMap(&tMap{value: payloadValue.Index(i)})
+					if err := tm.trackMap(&tMap{value: payloadValue.Index(i)}); err != nil {
+						return nil, fmt.Errorf("%s: %w", op, err)
+					}
 				case fkind == reflect.Struct:
 					if err := ef.filterField(ctx, f, filterOverrides, tm, opts...); err != nil {
 						return nil, fmt.Errorf("%s: %w", op, err)
